@@ -45,7 +45,8 @@ type c14Case struct {
 	ctype   string
 	payload []byte
 	wire    []byte
-	stream  string // valid | trunc | flip | emptywire
+	stream  string // valid | trunc | flip | emptywire | short
+	sendN   int    // stream "short": the origin declares Content-Length len(wire) but ends the message after wire[:sendN]
 	alg     string // codec the wire was produced with ("" = none); for the oracle
 	framing string // cl | stream
 	sizes   []int
@@ -95,13 +96,24 @@ func (o *c14Origin) ServeHTTP(w http.ResponseWriter, r *http.Request) {
 		}
 	}
 	if r.Method != "HEAD" {
-		for off := 0; off < len(c.wire); off += 256 << 10 {
+		body := c.wire
+		if c.stream == "short" {
+			// fewer bytes than declared, then the handler returns: HTTP/1.1 closes the
+			// connection, HTTP/2 and HTTP/3 end the stream
+			body = c.wire[:c.sendN]
+		}
+		for off := 0; off < len(body); off += 256 << 10 {
 			end := off + 256<<10
-			if end > len(c.wire) {
-				end = len(c.wire)
+			if end > len(body) {
+				end = len(body)
 			}
-			if _, err := w.Write(c.wire[off:end]); err != nil {
+			if _, err := w.Write(body[off:end]); err != nil {
 				return
+			}
+		}
+		if c.stream == "short" {
+			if f, ok := w.(http.Flusher); ok {
+				f.Flush()
 			}
 		}
 	}
@@ -371,9 +383,9 @@ func c14b(b bool) string {
 func (c *c14Case) args() string {
 	return strings.Join([]string{c.proto, c14b(c.dc), c14b(c.auto), verifh.Hex(c.method), verifh.Hex(c.ae), verifh.Hex(c.rng),
 		c14b(c.hasBody()), verifh.HexList(c.sentHeader()), strconv.FormatInt(c.declaredLength(), 10),
-		verifc14.Digest(c.wireBody(), "eof"),
-		verifc14.RefDigest("gzip", c.wireBody()), verifc14.RefDigest("deflate", c.wireBody()),
-		verifc14.RefDigest("br", c.wireBody()), verifc14.RefDigest("zstd", c.wireBody())}, " ")
+		verifc14.Digest(c.wireBody(), verifc14.Term(c.wireFin())),
+		verifc14.RefDigestFin("gzip", c.wireBody(), c.wireFin()), verifc14.RefDigestFin("deflate", c.wireBody(), c.wireFin()),
+		verifc14.RefDigestFin("br", c.wireBody(), c.wireFin()), verifc14.RefDigestFin("zstd", c.wireBody(), c.wireFin())}, " ")
 }
 
 // wireBody: what the framing layer delivers (nothing for HEAD).
@@ -381,7 +393,20 @@ func (c *c14Case) wireBody() []byte {
 	if c.method == "HEAD" {
 		return nil
 	}
+	if c.stream == "short" {
+		return c.wire[:c.sendN]
+	}
 	return c.wire
+}
+
+// wireFin: how the framing-level body ends. A message that ends before its declared
+// Content-Length is an unexpected EOF of the framing layer (HTTP/1.1 body reader, HTTP/2
+// bytesRemain accounting).
+func (c *c14Case) wireFin() error {
+	if c.stream == "short" && c.method != "HEAD" {
+		return io.ErrUnexpectedEOF
+	}
+	return io.EOF
 }
 
 func c14Supported(tok string) bool {
@@ -443,6 +468,21 @@ func (c *c14Case) oracle(o c14Obs) (ok bool, why string) {
 		return true, "" // a zero-length body is not an encoded payload: only model correspondence
 	}
 	hdr := strings.Join(o.hdr, "\x00")
+	if c.stream == "short" && c.method != "HEAD" {
+		// the message ended before its declared Content-Length (at a gzip member / zstd frame
+		// boundary the decoder alone sees a valid end): decoded or not, a body shorter than
+		// the original must come with a read error
+		if decode && (hdr != "X-Keep\x00k" || !o.unc || o.n != -1) {
+			return false, fmt.Sprintf("decoded case: header %q Uncompressed=%v ContentLength=%d", o.hdr, o.unc, o.n)
+		}
+		if !strings.HasPrefix(o.term, "err") {
+			return false, fmt.Sprintf("message cut after %d of %d declared bytes read as %s: %d of %d payload bytes and NO read error", c.sendN, len(c.wire), verifc14.Digest(o.data, o.term), len(o.data), len(c.payload))
+		}
+		if decode && !bytes.HasPrefix(c.payload, o.data) {
+			return false, "garbage before the error"
+		}
+		return true, ""
+	}
 	if !decode {
 		if !bytes.Equal(o.data, c.wireBody()) || o.term != "eof" {
 			return false, fmt.Sprintf("untouched case: body %s, sent %s", verifc14.Digest(o.data, o.term), verifc14.Digest(c.wireBody(), "eof"))
@@ -627,6 +667,60 @@ func c14Random(r *rand.Rand, proto string, n, nBig int) []*c14Case {
 	return out
 }
 
+// c14ShortCases: multi-member gzip / multi-frame zstd bodies whose message ends before the
+// declared Content-Length - exactly at a member/frame boundary (where the decoder alone sees a
+// valid end and only the framing layer's length accounting can tell), a few bytes around it,
+// or anywhere - under every decoding configuration and, for symmetry, undecoded.
+func c14ShortCases(r *rand.Rand, proto string, n int) []*c14Case {
+	var out []*c14Case
+	type cfgAlg struct {
+		cfg c14Cfg
+		alg string
+	}
+	combos := []cfgAlg{
+		{c14Cfgs[0], "gzip"}, // transport-requested gzip
+		{c14Cfgs[2], "gzip"}, {c14Cfgs[2], "zstd"}, // AutoDecompress
+		{c14Cfgs[4], "gzip"}, {c14Cfgs[4], "zstd"}, // caller Accept-Encoding + AutoDecompress
+		{c14Cfgs[5], "gzip"}, {c14Cfgs[5], "zstd"}, // DisableCompression + AutoDecompress
+		{c14Cfgs[3], "gzip"}, {c14Cfgs[1], "zstd"}, // not decoded: the plain length check
+	}
+	for i := 0; i < n; i++ {
+		ca := combos[i%len(combos)]
+		members := 2 + r.Intn(2)
+		var payload, wire []byte
+		var bounds []int
+		for m := 0; m < members; m++ {
+			pc := 1 + r.Intn(3)
+			if r.Intn(12) == 0 {
+				pc = 4
+			}
+			p := verifc14.Payload(r, pc)
+			payload = append(payload, p...)
+			wire = append(wire, verifc14.Compress(ca.alg, p)...)
+			bounds = append(bounds, len(wire))
+		}
+		cut := bounds[r.Intn(members-1)] // a member/frame boundary before the last one
+		kind := "boundary"
+		switch i / len(combos) % 4 {
+		case 2:
+			cut += 1 + r.Intn(max(1, min(8, len(wire)-cut-1)))
+			kind = "after-boundary"
+		case 3:
+			cut = 1 + r.Intn(len(wire)-1)
+			kind = "anywhere"
+		}
+		if cut >= len(wire) {
+			cut = len(wire) - 1
+		}
+		out = append(out, &c14Case{
+			id: fmt.Sprintf("%s-s-%d-%s-%s", proto, i, ca.alg, kind), proto: proto, dc: ca.cfg.dc, auto: ca.cfg.auto, ae: ca.cfg.ae, method: "GET",
+			ce: []string{ca.alg}, ctype: "application/octet-stream", payload: payload, wire: wire, stream: "short", sendN: cut,
+			alg: ca.alg, framing: "cl", sizes: verifc14.Sizes(r),
+		})
+	}
+	return out
+}
+
 // ---------------------------------------------------------------------------- lane body
 
 func c14RunLane(t *testing.T, s *verifh.Session, e *c14Env, cases []*c14Case, need []string) {
@@ -651,9 +745,43 @@ func c14RunLane(t *testing.T, s *verifh.Session, e *c14Env, cases []*c14Case, ne
 				class = "br-truncated-eof"
 			}
 		}
+		if c.stream == "short" {
+			count("short:" + c.id[strings.LastIndex(c.id, "-")+1:])
+			if o.unc {
+				count("short-decoded")
+			}
+			// klauspost zstd maps the source's unexpected EOF to a clean EOF at a frame boundary
+			// (permanent known finding, see the unit lane)
+			if !ok && c.alg == "zstd" && o.unc && o.term == "eof" {
+				if _, _, term := verifc14.Ref("zstd", c.wireBody(), io.ErrUnexpectedEOF); term == "eof" {
+					class = "zstd-source-error-at-frame-boundary"
+				}
+			}
+		}
 		if o.panicText != "" {
 			s.Crash(c.id, human, o.panicText, class)
 			count("panic")
+			continue
+		}
+		if c.stream == "short" && c.proto == "h3" && o.rtErr == "" {
+			// The HTTP/3 body reader (internal/http3/body.go, as upstream quic-go) only checks for
+			// MORE data than declared; a stream that ends early is a clean EOF on that stack,
+			// decoded or not - a framing matter (C03), not a decoding one. Judged leniently here:
+			// an error, or exactly what the reference decoder makes of the bytes received.
+			alg := ""
+			if o.unc {
+				alg = c.alg
+			}
+			lenient := strings.HasPrefix(o.term, "err")
+			if !lenient {
+				if alg == "" {
+					lenient = bytes.Equal(o.data, c.wireBody())
+				} else {
+					_, out, term := verifc14.Ref(alg, c.wireBody(), io.EOF)
+					lenient = bytes.Equal(o.data, out) && o.term == term
+				}
+			}
+			s.Observe(c.id, lenient, class, true, human, o.answer())
 			continue
 		}
 		if o.rtErr != "" && strings.Contains(o.rtErr, "infra:") {
@@ -694,9 +822,9 @@ func c14RunLane(t *testing.T, s *verifh.Session, e *c14Env, cases []*c14Case, ne
 	}
 }
 
-const c14Rule = "in-process origin; FULL matrix {default, DisableCompression, AutoDecompress, caller Accept-Encoding, caller AE+AutoDecompress, DisableCompression+AutoDecompress, caller AE gzip} x {GET, HEAD, Range GET} x Content-Encoding {gzip, deflate, br, zstd, identity, unknown, none, empty value, GZIP, Gzip, Br, ZSTD, x-gzip, 'gzip, br', 'br,gzip', two header lines, 'gzip;q=1'} with payloads {empty,tiny,text,random}; plus random decoded cases: payload up to multi-MiB, multi-member gzip, Content-Length vs streamed framing, streams truncated / bit-flipped (first bytes, last bytes, anywhere), zero-length body, 1-4 cycling Read sizes from {1..65536}. Observed: Accept-Encoding at the origin, Response.Header (Content-Encoding, Content-Length, X-Keep), ContentLength, Uncompressed, body bytes + final read error. Compared with the Lean model (c14x) and judged by an independent Go oracle of the property text; non-trivial = a Content-Encoding was sent or the body was decoded"
+const c14Rule = "in-process origin; FULL matrix {default, DisableCompression, AutoDecompress, caller Accept-Encoding, caller AE+AutoDecompress, DisableCompression+AutoDecompress, caller AE gzip} x {GET, HEAD, Range GET} x Content-Encoding {gzip, deflate, br, zstd, identity, unknown, none, empty value, GZIP, Gzip, Br, ZSTD, x-gzip, 'gzip, br', 'br,gzip', two header lines, 'gzip;q=1'} with payloads {empty,tiny,text,random}; plus random decoded cases: payload up to multi-MiB, multi-member gzip, Content-Length vs streamed framing, streams truncated / bit-flipped (first bytes, last bytes, anywhere), zero-length body, multi-member gzip / multi-frame zstd messages that end BEFORE the declared Content-Length at a member/frame boundary, just after it, or anywhere (decoded under every configuration and undecoded; oracle: read error, never a silently shortened body), 1-4 cycling Read sizes from {1..65536}. Observed: Accept-Encoding at the origin, Response.Header (Content-Encoding, Content-Length, X-Keep), ContentLength, Uncompressed, body bytes + final read error. Compared with the Lean model (c14x) and judged by an independent Go oracle of the property text; non-trivial = a Content-Encoding was sent or the body was decoded"
 
-var c14Need = []string{"decoded", "untouched", "HEAD", "Range", "decoded:gzip", "decoded:deflate", "decoded:br", "decoded:zstd", "stream:trunc", "stream:flip", "stream:emptywire", "framing:stream", "decoded-error", "multi-MiB", "multi-member"}
+var c14Need = []string{"short:boundary", "short:anywhere", "short-decoded", "decoded", "untouched", "HEAD", "Range", "decoded:gzip", "decoded:deflate", "decoded:br", "decoded:zstd", "stream:trunc", "stream:flip", "stream:emptywire", "framing:stream", "decoded-error", "multi-MiB", "multi-member"}
 
 // TestVerif_C14_e2e_h1: HTTP/1.1.
 func TestVerif_C14_e2e_h1(t *testing.T) {
@@ -705,6 +833,7 @@ func TestVerif_C14_e2e_h1(t *testing.T) {
 	defer e.close()
 	r := s.Rand()
 	cases := append(c14Matrix(r, "h1"), c14Random(r, "h1", verifh.N(300, 8000), verifh.N(3, 16))...)
+	cases = append(cases, c14ShortCases(r, "h1", verifh.N(54, 1800))...)
 	c14RunLane(t, s, e, cases, c14Need)
 	s.Finish()
 }
@@ -716,6 +845,7 @@ func TestVerif_C14_e2e_h2(t *testing.T) {
 	defer e.close()
 	r := s.Rand()
 	cases := append(c14Matrix(r, "h2"), c14Random(r, "h2", verifh.N(300, 8000), verifh.N(3, 16))...)
+	cases = append(cases, c14ShortCases(r, "h2", verifh.N(54, 1800))...)
 	c14RunLane(t, s, e, cases, c14Need)
 	s.Finish()
 }
@@ -727,6 +857,7 @@ func TestVerif_C14_e2e_h3(t *testing.T) {
 	defer e.close()
 	r := s.Rand()
 	cases := append(c14Matrix(r, "h3"), c14Random(r, "h3", verifh.N(250, 8000), verifh.N(2, 16))...)
+	cases = append(cases, c14ShortCases(r, "h3", verifh.N(54, 1800))...)
 	c14RunLane(t, s, e, cases, c14Need)
 	s.Finish()
 }
@@ -747,6 +878,7 @@ func TestVerif_C14_cross(t *testing.T) {
 	r.Shuffle(len(m), func(i, j int) { m[i], m[j] = m[j], m[i] })
 	base = append(base, m[:verifh.N(90, len(m))]...)
 	base = append(base, c14Random(r, "x", verifh.N(150, 4000), verifh.N(1, 6))...)
+	base = append(base, c14ShortCases(r, "x", verifh.N(18, 360))...)
 	hist := map[string]int{}
 	for _, b := range base {
 		var answers []string
@@ -787,6 +919,15 @@ func TestVerif_C14_cross(t *testing.T) {
 		idx := map[string]int{"h1": 0, "h2": 1, "h3": 2}[c2.proto]
 		sameReads := again == answers[idx]
 		// a zero-length body with a Content-Encoding: HTTP/3 has no bodiless exit (documented)
+		if b.stream == "short" {
+			// HTTP/3 has no check for a message shorter than declared (see c14RunLane): the
+			// two stacks that have one must agree
+			same = answers[0] == answers[1]
+			if idx == 2 {
+				sameReads = true
+			}
+			s.Count("short")
+		}
 		if b.stream == "emptywire" || (len(b.wire) == 0 && len(b.ce) > 0 && b.method != "HEAD") {
 			same = answers[0] == answers[1]
 			s.Count("emptywire")
